@@ -64,7 +64,7 @@ class Run:
         if res.get("fault"):
             raise HarnessFault(f"{res['fault']} on case {json.dumps(case)[:600]}")
         if res.get("viol"):
-            self.violation(case, res["viol"], res.get("cls"))
+            self.violation(res.get("case", case), res["viol"], res.get("cls"))
 
     def violation(self, case, msgs, cls=None):
         cls = cls or msgs[0][:60]
